@@ -24,9 +24,12 @@ type linOut struct {
 var t0 = time.Date(2000, 1, 1, 0, 0, 0, 0, time.UTC)
 
 // linModel wraps the reference model as a porcupine model over a key group.
-func linModel() porcupine.Model {
+func linModel(ndb int) porcupine.Model {
+	if ndb < 1 {
+		ndb = 1
+	}
 	return porcupine.Model{
-		Init: func() interface{} { return refmodel.New(1) },
+		Init: func() interface{} { return refmodel.New(ndb) },
 		Step: func(state, input, output interface{}) (bool, interface{}) {
 			m := state.(*refmodel.Model).Clone()
 			in := input.(linIn)
@@ -40,13 +43,19 @@ func linModel() porcupine.Model {
 			return ok, m
 		},
 		Equal: func(a, b interface{}) bool {
-			da, db := a.(*refmodel.Model).Dump(0, time.Time{}), b.(*refmodel.Model).Dump(0, time.Time{})
-			if len(da) != len(db) {
+			ma, mb := a.(*refmodel.Model), b.(*refmodel.Model)
+			if len(ma.DBs) != len(mb.DBs) || ma.Selected[0] != mb.Selected[0] {
 				return false
 			}
-			for j := range da {
-				if da[j] != db[j] {
+			for i := range ma.DBs {
+				da, db := ma.Dump(i, time.Time{}), mb.Dump(i, time.Time{})
+				if len(da) != len(db) {
 					return false
+				}
+				for j := range da {
+					if da[j] != db[j] {
+						return false
+					}
 				}
 			}
 			return true
@@ -120,12 +129,28 @@ func checkLinearizable(rr *RunResult, timeout time.Duration) (res linResult) {
 		keys []string
 	}
 	var all []rec
+	// SELECT: the cluster has ONE current database for the whole replicated
+	// command stream (every replica switches when the entry is applied), so the
+	// history is checked against a model with one shared selection, as a whole
+	hasSelect := false
+	for _, c := range rr.Clients {
+		for _, op := range c.ops {
+			if len(op.Args) > 0 && strings.EqualFold(string(op.Args[0]), "select") {
+				hasSelect = true
+			}
+		}
+	}
 	for _, c := range rr.Clients {
 		for _, op := range c.ops {
 			if op.Probe || len(op.Args) == 0 {
 				continue
 			}
-			if strings.EqualFold(string(op.Args[0]), "rconf") {
+			if isMgmt(op.Args) {
+				continue // replies of management commands are not judged
+			}
+			if hasSelect {
+				find("*")
+				all = append(all, rec{op, []string{"*"}})
 				continue
 			}
 			ks := keysOf(op.Args)
@@ -149,7 +174,7 @@ func checkLinearizable(rr *RunResult, timeout time.Duration) (res linResult) {
 		names = append(names, g)
 	}
 	sort.Strings(names)
-	model := linModel()
+	model := linModel(rr.Sc.Knobs.Databases)
 	for _, g := range names {
 		var ops []porcupine.Operation
 		pend := 0
